@@ -36,7 +36,7 @@ def gen_auth_shape():
         facts.setdefault(k, []).append(v)
     shape = (facts.get("shapeCond") or ["?"])[0]
     keys = ["flagDecls", "flagWrites", "authCalls", "udpManagers", "tcpSpawns", "dispatcherHead",
-            "handlerCtors", "respWrites", "shapeCond"]
+            "handlerCtors", "respWrites", "shapeCond", "h3ServerFields"]
     lines = ["/- REGENERATED from /repo/core/server/server.go on every run (go/ast; tools/hv/props/C01.py). Do not edit.",
              "   SHAPE abbreviates the condition of the first `if` of ServeHTTP (given in full as shapeCond). -/",
              "namespace Hy.Gen.AuthShape"]
